@@ -39,7 +39,24 @@ type Ob struct {
 	Sites  []Site   `json:"sites,omitempty"`
 	Evals  int      `json:"constructs_inspected"`
 	Facts  []string `json:"facts,omitempty"`
-	known  bool
+	// Unrecognised lists constructs this obligation knows only in one
+	// written form and did not find in that form.  This is not a violation
+	// (the form may have changed while the behaviour did not) and does not
+	// fail the check; the obligation then says nothing about the construct.
+	Unrecognised []string `json:"unrecognised,omitempty"`
+	known        bool
+}
+
+// Shape notes that a construct recognised only by its written form is (cond
+// true) or is not (cond false) present in that form.  Unlike Require, a
+// missing form does not fail the obligation: it is reported as
+// UNRECOGNISED and recorded in the evidence.
+func (o *Ob) Shape(cond bool, format string, args ...any) bool {
+	o.Evals++
+	if !cond && len(o.Unrecognised) < 20 {
+		o.Unrecognised = append(o.Unrecognised, fmt.Sprintf(format, args...))
+	}
+	return cond
 }
 
 // Fail marks the obligation violated.
@@ -260,6 +277,13 @@ func (c *Ctx) Finish() int {
 	}
 
 	nViol, nUndec, nKnown, nDis := 0, 0, 0, 0
+	nUnrec := 0
+	for _, o := range c.Obs {
+		if len(o.Unrecognised) > 0 {
+			nUnrec++
+			fmt.Printf("UNRECOGNISED rule=%s key=%s\n    %s\n", o.Rule, o.Key, strings.Join(o.Unrecognised, "; "))
+		}
+	}
 	evals := 0
 	nontrivial := map[string]bool{}
 	byRule := map[string]int{}
@@ -341,6 +365,9 @@ func (c *Ctx) Finish() int {
 		if o.Detail != "" {
 			s["detail"] = o.Detail
 		}
+		if len(o.Unrecognised) > 0 {
+			s["unrecognised"] = o.Unrecognised
+		}
 		samples = append(samples, s)
 	}
 	floors := map[string]int{}
@@ -354,6 +381,7 @@ func (c *Ctx) Finish() int {
 		"discharged":          nDis,
 		"known_findings":      nKnown,
 		"undecided":           nUndec,
+		"unrecognised_forms":  nUnrec,
 		"evaluations":         evals,
 		"distinct_nontrivial": len(nontrivial),
 		"rule":                "one obligation = one static rule applied to one construct (function, table, call site, field) of /repo's current source, keyed rule|construct; non-trivial = the rule actually inspected at least one AST/CFG/SSA construct for it; evaluations = number of constructs inspected",
@@ -385,6 +413,10 @@ func (c *Ctx) Finish() int {
 	}
 	b, _ := json.MarshalIndent(ev, "", " ")
 	evDir := filepath.Join(c.VerifDir, "evidence")
+	if RepoDir() != "/repo" {
+		// a scratch copy is being analysed: the committed evidence describes /repo
+		evDir = filepath.Join(os.TempDir(), "pdfverif-scratch-evidence")
+	}
 	os.MkdirAll(evDir, 0o755)
 	if err := os.WriteFile(filepath.Join(evDir, c.Prop+".json"), b, 0o644); err != nil {
 		fmt.Printf("ERROR writing evidence: %v\n", err)
@@ -392,6 +424,9 @@ func (c *Ctx) Finish() int {
 	}
 	fmt.Printf("%s %s: %d obligations, %d discharged, %d known findings, %d violated, %d undecided, %d constructs inspected, %.1fs\n",
 		c.Prop, c.Tier, len(c.Obs), nDis, nKnown, nViol, nUndec, evals, wall)
+	if nUnrec > 0 {
+		fmt.Printf("%s %s: %d obligations met a construct in a form they do not recognise (not decided, not failed)\n", c.Prop, c.Tier, nUnrec)
+	}
 	if nViol+nUndec > 0 {
 		return 1
 	}
